@@ -185,8 +185,8 @@ void h_lookup(void) {
   ASSERT(Table_Len(t) == (size_t)old_len && Table_Key_Type(t) == ELEM && Table_Val_Type(t) == ELEM, "[C02] len is the number of bindings");
 }
 /* rem: removes exactly the binding of k (backward shift keeps wf); shrink rehash is cut by its contract */
-static int cv_resize_less_calls;
-void cv_resize_less(struct Table* tt) { cv_resize_less_calls++; }
+static int cv_resize_less_calls; static size_t cv_resize_less_items;
+void cv_resize_less(struct Table* tt) { cv_resize_less_calls++; cv_resize_less_items = tt->nitems; }
 void h_rem(void) {
   arbitrary_table();
   expect_throw = !old_has_k; expect_exc = KeyError;
@@ -201,7 +201,7 @@ void h_rem(void) {
   ASSERT(wf_rh(t, NS), "[C02] the robin-hood invariant holds after rem (backward shift)");
   ASSERT(ledger_ok(t, NS), "[C05] every remaining key and value is live");
   ASSERT(cv_retired == 2 && cv_issued == 2 * old_len, "[C05] rem finalises exactly the removed key and value, once each");
-  ASSERT(cv_resize_less_calls == 1, "rem checks for shrinking exactly once, after the removal");
+  ASSERT(cv_resize_less_calls == 1 && cv_resize_less_items == (size_t)old_len - 1, "[C02] rem checks for shrinking exactly once, after the removal has been counted (the rehash recounts the entries it moves)");
 }
 /* iteration: every occupied slot exactly once, forwards and backwards, Terminal after len steps */
 void h_iter(void) {
